@@ -106,6 +106,33 @@ Definition opt_ge {A} (ge : A -> A -> bool) (a b : option A) : bool :=
   | Some x, Some y => ge x y
   end.
 
+(* Option::map with a closure that may panic *)
+Definition option_map_m {E A B} (f : A -> outcome E B) (o : option A) : outcome E (option B) :=
+  match o with Some a => let* b := f a in Ok (Some b) | None => Ok None end.
+
+(* ---------- a plain state monad: a `&mut self` method whose state is S (no effect list) ---------- *)
+Definition sres (S E A : Type) : Type := (S * outcome E A)%type.
+Definition sret {S E A} (s : S) (a : A) : sres S E A := (s, Ok a).
+Definition sfail {S E A} (s : S) (e : E) : sres S E A := (s, Err e).
+Definition spanic {S E A} (s : S) (p : panic) : sres S E A := (s, Panic p).
+Definition slift {S E A} (s : S) (x : outcome E A) : sres S E A := (s, x).
+Definition sbind {S E A B} (x : sres S E A) (f : S -> A -> sres S E B) : sres S E B :=
+  let '(s, r) := x in
+  match r with
+  | Ok a => f s a
+  | Err e => (s, Err e)
+  | Panic p => (s, Panic p)
+  end.
+Definition sexpect {S E A} (x : sres S E A) : sres S E A :=
+  let '(s, r) := x in match r with Err _ => (s, Panic PUnwrap) | _ => (s, r) end.
+(* a `for` loop in a state method: the state and the loop's `let mut` locals are threaded through the iterations;
+   an error / panic stops the loop and keeps the state reached so far *)
+Fixpoint sfold {S E A Acc} (f : S -> Acc -> A -> sres S E Acc) (l : list A) (s : S) (acc : Acc) : sres S E Acc :=
+  match l with
+  | [] => sret s acc
+  | a :: l' => sbind (f s acc a) (fun s' acc' => sfold f l' s' acc')
+  end.
+
 (* assert!(b) *)
 Definition rassert {E} (b : bool) : outcome E unit := if b then Ok tt else Panic PAssert.
 
